@@ -15,7 +15,7 @@ SERIAL = os.environ.get("VERIF_TIER") == "quick"   # heavily loaded machine: a f
 TECHNIQUE = ("model-based generation of event histories (Hypothesis) over the real Cluster/ControlConnection/Session/pools/"
              "scheduler/reconnection handlers on a deterministic simulated network and virtual clock; history invariants as oracle")
 RULE = ("A case is 2-3 fake nodes (optionally one IGNORED by the load-balancing policy), 1-2 sessions, "
-        "ConstantReconnectionPolicy(1 s) and up to ~20 generated events (free sequences, or an outage / a removal-racing-reconnection skeleton with generated events interleaved): a pool connection fails (peer closes it and a request "
+        "ConstantReconnectionPolicy(1 s) and up to ~20 generated events (free sequences, or an outage / removal-racing-reconnection / rejoin-while-unreachable skeleton with generated events interleaved): a pool connection fails (peer closes it and a request "
         "is routed to that host), a node goes down (refuses connections, its sockets are closed) / comes back / refuses the "
         "next k connection attempts, the control node pushes STATUS_CHANGE UP/DOWN or TOPOLOGY_CHANGE NEW_NODE/REMOVED_NODE "
         "(with or without the system tables agreeing), a node leaves / rejoins the topology, the node list is refreshed, a "
@@ -32,7 +32,9 @@ ASSUMPTIONS = ["network, clock, executor and event loop are simulated (sim/); Cl
                "default profile's policy into them, so one policy object is notified four times per transition)",
                "invariants are evaluated at quiescent points (no runnable virtual thread at the current virtual time); "
                "pool presence is evaluated after >= 1.5 s of quiet time and at the end",
-               "connection attempts take no virtual time (connect races are C45's subject)"]
+               "connection attempts take no virtual time (connect races are C45's subject)",
+               "Cluster.sessions (a WeakSet iterated in memory-address order) is replaced by an insertion-ordered set so that a "
+               "case replays identically"]
 
 ADV = [0.05, 0.15, 0.3, 1.0, 1.5, 3.0]
 
@@ -58,8 +60,14 @@ def s_case(gran):
     long_adv = st.sampled_from([1.0, 1.5, 3.0]).map(lambda d: [["advance", d]])
     short_adv = st.sampled_from([0.05, 0.15, 0.3, 1.0]).map(lambda d: [["advance", d]])
     # an outage: the node goes away, at least one reconnection attempt fails, the node comes back
-    outage = st.tuples(h, filler, long_adv, filler, filler, long_adv).map(
-        lambda t: [["node_down", t[0], True]] + t[1] + t[2] + t[3] + [["node_up", t[0]]] + t[4] + t[5])
+    # (optionally the control node announces the host UP while it is still unreachable)
+    outage = st.tuples(h, filler, long_adv, filler, filler, long_adv, st.booleans(), short_adv).map(
+        lambda t: [["node_down", t[0], True]] + t[1] + t[2] +
+        ([["status", "UP", t[0]]] + t[7] if t[6] else []) + t[3] + [["node_up", t[0]]] + t[4] + t[5])
+    # a node leaves, then rejoins the ring while it is still unreachable, then becomes reachable
+    rejoin = st.tuples(h, short_adv, filler, short_adv, filler, long_adv).map(
+        lambda t: [["leave", t[0], True]] + t[1] + [["node_down", t[0], False]] + t[2] + [["join", t[0], True]] + t[3] +
+        t[4] + [["node_up", t[0]]] + t[5])
     # a removal racing a reconnection: the host is down (reconnector scheduled), then it leaves / is announced removed
     kill = st.one_of(st.tuples(st.just("conn_fail"), h, st.just(0)), st.tuples(st.just("node_down"), h, st.just(True)))
     gone = st.one_of(st.tuples(st.just("leave"), st.booleans()), st.tuples(st.just("topology"), st.just("REMOVED_NODE")))
@@ -69,7 +77,7 @@ def s_case(gran):
     free = st.lists(ev, min_size=1, max_size=14)
     tail = st.lists(ev, max_size=6)
     events = st.one_of(free, st.tuples(outage, tail).map(lambda t: t[0] + t[1]), st.tuples(race, tail).map(lambda t: t[0] + t[1]),
-                       st.tuples(outage, race).map(lambda t: t[0] + t[1]))
+                       st.tuples(outage, race).map(lambda t: t[0] + t[1]), st.tuples(rejoin, tail).map(lambda t: t[0] + t[1]))
     return st.fixed_dictionaries({
         "hosts": st.integers(2, 3),
         "sessions": st.sampled_from([1, 1, 2]),
@@ -149,8 +157,13 @@ def _run(case, ctx, sim):
     marks = []      # ("removed" | "adding", address, number of connection attempts so far)
     removed_objs = []   # Host objects whose Cluster.on_remove has returned
 
+    adding_now = []     # Host objects whose Cluster.on_add is on some stack right now
+    removed_ctx = {}    # id(Host) -> what the cluster was doing with the host when it was removed
+
     def on_remove(self, host, _orig=C.Cluster.on_remove):
         a, before = host.endpoint.address, len(marks)
+        removed_ctx[id(host)] = ("removed-during-on_add" if any(x is host for x in adding_now) else
+                                 "removed-during-on_up" if host._currently_handling_node_up else "removed-while-idle")
         try:
             return _orig(self, host)
         finally:
@@ -162,7 +175,11 @@ def _run(case, ctx, sim):
 
     def on_add(self, host, refresh_nodes=True, _orig=C.Cluster.on_add):
         marks.append(("adding", host.endpoint.address, len(net.connect_log)))
-        return _orig(self, host, refresh_nodes)
+        adding_now.append(host)
+        try:
+            return _orig(self, host, refresh_nodes)
+        finally:
+            adding_now.remove(host)
     sim.patch.set(C.Cluster, "on_remove", on_remove)
     sim.patch.set(C.Cluster, "on_add", on_add)
     S.fixed_random(sim, [0.0])
@@ -170,7 +187,18 @@ def _run(case, ctx, sim):
     dist = {ignored_addr: "ignored"} if ignored_addr else None
     cluster = sim.make_cluster(addrs[:1], execution_profiles=S.separate_profiles(prof, lambda: S.plan_policy(distances=dist)),
                                reconnection_policy=ConstantReconnectionPolicy(1.0, max_attempts=None))
+    S.deterministic_sessions(cluster)
     cluster.register_listener(S.recording_listener(lis_log, clock=lambda: world.now))
+    premature = []      # (kind, address, session index): listeners told "up"/"added" while a session has no live pool
+
+    class PoolWatcher(S.recording_listener([]).__class__):
+        def _put(self, kind, host):
+            if kind in ("up", "add") and policy.distance(host) != HostDistance.IGNORED:
+                for si, s in enumerate(tuple(cluster.sessions)):
+                    pool = s._pools.get(host)
+                    if not s.is_shutdown and (pool is None or pool.is_shutdown):
+                        premature.append((kind, host.endpoint.address, si))
+    cluster.register_listener(PoolWatcher())
     sessions = []
     with ctx.driver(["C25.setup", "connect"]):
         for _ in range(case["sessions"]):
@@ -217,6 +245,12 @@ def _run(case, ctx, sim):
                                  "%s: host %s is marked up and not ignored but session %d has %s for it" % (
                                      where, a, si, "no pool" if pool is None else "a shut-down pool"))
                         return False
+        if premature:
+            kind, a, si = premature[0]
+            ctx.fail(["C25.pools", "notified-%s-without-pool" % kind],
+                     "%s: listeners were told host %s is %s while session %d had no live pool for it" % (
+                         where, a, "up" if kind == "up" else "added (and up)", si))
+            return False
         for hobj in removed_objs:
             if any(k is hobj for k in cluster.metadata.all_hosts()):
                 continue
@@ -231,7 +265,7 @@ def _run(case, ctx, sim):
             for si, s in enumerate(sessions):
                 for h, pool in list(s._pools.items()):
                     if not pool.is_shutdown and not any(k is h for k in known):
-                        ctx.fail(["C25.removed-has-pool"],
+                        ctx.fail(["C25.removed-has-pool", removed_ctx.get(id(h), "never-removed")],
                                  "%s: host %s is no longer part of the cluster metadata (removed) but session %d still "
                                  "holds a live pool for it (host.is_up=%r)" % (where, h.endpoint.address, si, h.is_up))
                         return False
@@ -358,6 +392,12 @@ def _run(case, ctx, sim):
             if policy.distance(h) == HostDistance.IGNORED:
                 continue
             a = h.endpoint.address
+            if h.is_up is None:
+                # never marked down, so the statement promises nothing; seen with two sessions when one session's pool for
+                # a newly added host fails and on_down is discounted because the other session is connected: the host
+                # stays in the unknown state, without reconnector, without on_add notification (reported as an observation)
+                ctx.label("observation:host-stuck-in-unknown-state")
+                continue
             if h.is_up is not True:
                 ctx.fail(["C25.comes-back", "still-down"],
                          "every node has been reachable for 6 s but host %s is %r (handlers: %r)" % (
@@ -396,8 +436,8 @@ def _run(case, ctx, sim):
 
 def parts(tier):
     return [
-        hyp_part("blocking", lambda: s_case("blocking"), interpret, tier, quick=60, thorough=1200,
+        hyp_part("blocking", lambda: s_case("blocking"), interpret, tier, quick=150, thorough=1200,
                  quick_shards=6, thorough_shards=12),
-        hyp_part("locks", lambda: s_case("locks"), interpret, tier, quick=25, thorough=400,
+        hyp_part("locks", lambda: s_case("locks"), interpret, tier, quick=60, thorough=400,
                  quick_shards=2, thorough_shards=4),
     ]
